@@ -47,6 +47,7 @@ type LogEntry struct {
 	Args   []Value
 	BufObj *Obj
 	NowsBefore int
+	Rets   []Value
 }
 
 type Snapshot struct {
@@ -98,6 +99,11 @@ type State struct {
 	streamView    map[int]*Obj
 	unfoldCRC     bool
 	nowsAtLastLog int
+	rangeKeys     []Value
+	selectCount   int
+	ghostlog      map[string]bool
+	doneChans     map[int]*ChanV
+	blocking      int
 }
 
 func (s *State) freshName(base string) string {
@@ -306,7 +312,7 @@ func (s *State) symValue(t types.Type, name string) Value {
 			return &StringV{Arr: &ArrVar{Name: s.freshName(name + ".str"), W: 8}, Len: l}
 		}
 	case *types.Pointer:
-		p := &PtrV{Nil: s.freshVar(name+".isnil", BoolSort), Elem: u.Elem()}
+		p := &PtrV{Nil: s.freshVar(name+".isnil", BoolSort), Elem: u.Elem(), Addr: s.freshVar(name+".addr", BV(64))}
 		nm := name
 		p.lazy = func() *Obj {
 			return s.newObj(u.Elem(), s.symValue(u.Elem(), "("+nm+")"), nm, false)
@@ -380,7 +386,7 @@ func (s *State) symValue(t types.Type, name string) Value {
 		}
 		return iv
 	case *types.Map:
-		return &MapV{Nil: s.freshVar(name+".isnil", BoolSort), Obj: s.newObj(t, &OpaqueV{Kind: "map"}, name, false)}
+		return &MapV{Nil: s.freshVar(name+".isnil", BoolSort), Obj: s.newObj(t, &MapContents{KeyT: u.Key(), ElemT: u.Elem(), Base: s.freshName(name)}, name, false)}
 	case *types.Chan:
 		return &ChanV{Nil: s.freshVar(name+".isnil", BoolSort), Obj: s.newObj(t, &OpaqueV{Kind: "chan"}, name, false)}
 	case *types.Signature:
@@ -524,6 +530,9 @@ func (s *State) load(p *PtrV, where string) Value {
 	if o == nil {
 		return s.zeroValue(p.Elem)
 	}
+	if o.Shared && s.pure == 0 {
+		return s.symValue(p.Elem, "shared."+o.Name)
+	}
 	return s.navigate(s.contents(o), p.Path)
 }
 
@@ -534,6 +543,17 @@ func (s *State) store(p *PtrV, v Value, where string) {
 	}
 	if o.ReadOnly {
 		unsup("store through an element reached by a symbolic index")
+	}
+	if c, ok := v.(*ChanV); ok && c.Obj != nil && (c.Obj.Name == "makechan" || c.Obj.Name == "") {
+		nm := o.Name
+		if len(p.Path) > 0 && p.Path[len(p.Path)-1].Field >= 0 {
+			if st, ok := p.fieldOwner().(*types.Struct); ok {
+				nm = st.Field(p.Path[len(p.Path)-1].Field).Name()
+			}
+		}
+		if nm != "" {
+			c.Obj.Name = nm
+		}
 	}
 	s.heap[o.ID] = s.update(s.contents(o), p.Path, v)
 }
@@ -675,4 +695,24 @@ func (s *State) symValueAt(t types.Type, base string, idx *Term) Value {
 	}
 	v := s.symValue(t, base)
 	return v
+}
+
+// fieldOwner: the struct type that owns the last field selector of the pointer's path.
+func (p *PtrV) fieldOwner() types.Type {
+	if p.Obj == nil {
+		return nil
+	}
+	t := p.Obj.Type
+	for i, sel := range p.Path {
+		if i == len(p.Path)-1 {
+			return t.Underlying()
+		}
+		switch u := t.Underlying().(type) {
+		case *types.Struct:
+			t = u.Field(sel.Field).Type()
+		case *types.Array:
+			t = u.Elem()
+		}
+	}
+	return nil
 }
